@@ -161,17 +161,31 @@ func walRecFor(db uintptr, gid uuid.UUID) *walRec {
 	return v.(*walRec)
 }
 
+// read: a dead incarnation reads nothing more either. Its goroutines outlive the simulated crash (they
+// cannot be killed in-process) and its store object keeps its own caches of first / last index while
+// the next incarnation compacts and appends in the same database: letting its reads through made
+// etcd/raft, still ticking in the dead incarnation, find "its" last index compacted away and end the
+// process — a state no crashed process can be in (false alarm of the crash engine, DESIGN §8.4).
+func (w *crashWAL) read() {
+	if w.ctl.isDead() {
+		select {}
+	}
+}
+
 func (w *crashWAL) InitialState() (raftpb.HardState, raftpb.ConfState, error) {
+	w.read()
 	return w.inner.InitialState()
 }
 func (w *crashWAL) Entries(lo, hi, maxSize uint64) ([]raftpb.Entry, error) {
+	w.read()
 	return w.inner.Entries(lo, hi, maxSize)
 }
-func (w *crashWAL) Term(i uint64) (uint64, error)       { return w.inner.Term(i) }
-func (w *crashWAL) LastIndex() (uint64, error)          { return w.inner.LastIndex() }
-func (w *crashWAL) FirstIndex() (uint64, error)         { return w.inner.FirstIndex() }
-func (w *crashWAL) Snapshot() (raftpb.Snapshot, error)  { return w.inner.Snapshot() }
+func (w *crashWAL) Term(i uint64) (uint64, error)      { w.read(); return w.inner.Term(i) }
+func (w *crashWAL) LastIndex() (uint64, error)         { w.read(); return w.inner.LastIndex() }
+func (w *crashWAL) FirstIndex() (uint64, error)        { w.read(); return w.inner.FirstIndex() }
+func (w *crashWAL) Snapshot() (raftpb.Snapshot, error) { w.read(); return w.inner.Snapshot() }
 func (w *crashWAL) HardState() (raftpb.HardState, error) {
+	w.read()
 	return w.inner.(interface {
 		HardState() (raftpb.HardState, error)
 	}).HardState()
@@ -661,4 +675,11 @@ func netListenRetry(addr string) (net.Listener, error) {
 		time.Sleep(20 * time.Millisecond)
 	}
 	return nil, err
+}
+
+// peekHardState: the harness's own look at the store (also of a dead incarnation)
+func (w *crashWAL) peekHardState() (raftpb.HardState, error) {
+	return w.inner.(interface {
+		HardState() (raftpb.HardState, error)
+	}).HardState()
 }
